@@ -282,7 +282,7 @@ def eval_cross(i, scn):
 
 
 def main():
-    a, rep, replay = parse(PROP)
+    a, rep, replay = parse(PROP, aged=True)
     rep.assumptions = ["masks leaving fewer than 2 samples or no feature are don't-care", "NaN addresses are compared exactly; values to 1e-7"]
     th = rep.tier == "thorough"
     shape = (4, 4) if th else (3, 4)
